@@ -49,6 +49,7 @@ open GluonModel.Frames in
 def parseStep : Sexp → Option Step
   | .list [.atom "ok", d, v] => do pure (.ok (← d.toNat?) (← v.toNat?))
   | .list [.atom "fail", d, v] => do pure (.fail (← d.toNat?) (← v.toNat?))
+  | .list [.atom "hostfail", d, v] => do pure (.hostFail (← d.toNat?) (← v.toNat?))
   | _ => none
 
 /-- Table coverage (what `decide` would take minutes to evaluate in the kernel): entries of the modelled
@@ -60,8 +61,10 @@ def coverage : String :=
   let all := offendingSems.map (·.1) ++ guardedSems.map (·.1) ++ totalSems.map (·.1)
   let dup := all.filter fun n => (all.filter (· == n)).length > 1
   let stray := all.filter fun n => !(tab.any (·.name == n))
+  let rawTab := (tab.filter fun e => e.kind == "raw").map (·.name)
+  let rawDiff := (rawTab.filter fun n => !rawExternNames.contains n) ++ (rawExternNames.filter fun n => !rawTab.contains n)
   let shw (l : List String) := String.join (l.map fun n => " " ++ Sexp.quote n)
-  "(coverage (unmodelled" ++ shw unm ++ ") (ghost" ++ shw ghost ++ ") (dup" ++ shw dup ++ ") (stray" ++ shw stray ++ "))"
+  "(coverage (unmodelled" ++ shw unm ++ ") (ghost" ++ shw ghost ++ ") (dup" ++ shw dup ++ ") (stray" ++ shw stray ++ ") (raw-route" ++ shw rawDiff ++ "))"
 
 open GluonModel.Frames in
 def handle : List Sexp → String
@@ -71,7 +74,8 @@ def handle : List Sexp → String
     match steps.mapM parseStep with
     | none => "bad-steps"
     | some ss =>
-      let reset := if which == "fixed" then resetFixed else resetStack
+      -- "real" = the code as it is (values popped on the error path); "old" = reset_stack alone (before the D5 fix)
+      let reset := if which == "old" then resetStack else resetFixed
       let st := runHistory reset ss Stack.base
       s!"(frames {st.frames.length} values {st.values})"
   | _ => "bad-request"
